@@ -107,6 +107,59 @@ def _two_shard(firsts):
     return count, bad
 
 
+def argument_form_histories():
+    """Legal but less common argument forms: truthy/falsy ints for `padded`, bools and IntEnum members as numbers,
+    bytes-like arguments of add_bytes.  Each is paired with the canonical form the reference understands."""
+    import enum
+
+    class Small(enum.IntEnum):
+        TWO = 2
+        BIG = 253
+
+    out = []
+    for s_, L in (("a", 3), ("ÿ", 2), ("", 1), ("ab", 2)):
+        for mode in (0, 1):
+            for m in ("add_fixed_string", "add_fixed_encoded_string"):
+                out.append(([("mode", mode), (m, s_, L, 1)], [("mode", mode), ("raw", m, (s_, L, 1))]))
+                out.append(([("mode", mode), (m, s_ + "x" * (L - len(s_)), L, 0)], [("mode", mode), ("raw", m, (s_ + "x" * (L - len(s_)), L, 0))]))
+    for m, v, canon in (("add_char", True, 1), ("add_char", Small.TWO, 2), ("add_char", Small.BIG, 253), ("add_short", Small.BIG, 253), ("add_byte", False, 0)):
+        out.append(([(m, canon), ("add_char", 7)], [("raw", m, (v,)), ("add_char", 7)]))
+    for b in (bytearray(b"\x01\xff"), memoryview(b"\x01\xff")):
+        out.append(([("add_bytes", b"\x01\xff"), ("add_char", 7)], [("raw", "add_bytes", (b,)), ("add_char", 7)]))
+    return out
+
+
+def argument_forms_check():
+    """The raw form applied to the real writer must behave exactly like the canonical form applied to the reference."""
+    prod = WriterProduct()
+    count, bad = 0, []
+    for canon, raw in argument_form_histories():
+        count += 1
+        st = prod.fresh()
+        for c_op, r_op in zip(canon, raw):
+            if r_op[0] == "raw":
+                try:
+                    getattr(st["real"], r_op[1])(*r_op[2])
+                    o_r = "ok"
+                except Exception as e:  # noqa: BLE001
+                    o_r = f"raised {type(e).__name__}"
+                try:
+                    call(st["model"], c_op)
+                    o_m = "ok"
+                except ValueError:
+                    o_m = "raised ValueError"
+                what = None if o_r == o_m else f"real {o_r}, expected {o_m}"
+                what = what or prod.observe(st)
+            else:
+                what = prod.apply(st, c_op)
+            if what:
+                if len(bad) < 3:
+                    shown = [(o[0], o[1], tuple(repr(a) for a in o[2])) if o[0] == "raw" else o for o in raw]
+                    bad.append((canon, f"argument form {shown}: {what}"))
+                break
+    return count, bad
+
+
 def call(w, op):
     name = op[0]
     if name in NUM_METHODS:
@@ -238,6 +291,7 @@ def run(tier, seed):
     res_two = par.pmap(_two_shard, par.chunks(atoms, W))
     two_n = sum(r[0] for r in res_two)
     two_bad = [b for r in res_two for b in r[1]]
+    form_n, form_bad = argument_forms_check()
     lad_bad, lad_n = [], 0
     prod = WriterProduct()
     for h in ladder_histories():
@@ -259,8 +313,11 @@ def run(tier, seed):
         violations.append({"key": f"writer-long:{h[-1][0]}:{what.split(':')[1][:40] if ':' in what else what[:40]}", "what": f"history {[(o[0],) + tuple(len(x) if isinstance(x, str) else x for x in o[1:]) for o in h]} (string lengths shown): {what}", "case": {"history": h}})
     for h, what in two_bad:
         violations.append({"key": "two-writers:" + what.split(": ", 1)[1][:50], "what": f"history {h}: {what}", "case": {"two": [[w, list(op)] for w, op in h]}})
-    hist += two_n
+    for canon, what in form_bad:
+        violations.append({"key": "argument-form:" + what.split(": ")[-1][:50], "what": what, "case": {"forms": True}})
+    hist += two_n + form_n
     coverage = {
+        "argument_form_histories": form_n,
         "two_writer_histories": two_n,
         "long_string_histories": lad_n,
         "states": states,
@@ -275,7 +332,7 @@ def run(tier, seed):
         "exhaustive": True,
         "rule": "every history of depth_full over the full menu (5 numeric methods x 21 boundary values incl. every type's limit, "
         "12 strings x all string methods x lengths 0..4 x padded, raw bytes, mode toggles), every history of depth_reduced "
-        "over the reduced menu, and the full menu after 4 two-step prefixes; plus every history of 3 steps over a 12-op menu on TWO writers alive at the same time (each step also re-observes the other writer); plus a length ladder (strings of 8..300 characters with a y-diaeresis at start/middle/end through every string method, both modes, exact/padded/wrong widths); after every step the real writer's "
+        "over the reduced menu, and the full menu after 4 two-step prefixes; plus every history of 3 steps over a 12-op menu on TWO writers alive at the same time (each step also re-observes the other writer); plus legal argument forms (padded=1/0, bool and IntEnum numbers, bytearray/memoryview for add_bytes); plus a length ladder (strings of 8..300 characters with a y-diaeresis at start/middle/end through every string method, both modes, exact/padded/wrong widths); after every step the real writer's "
         "(len, bytes, mode) and accept/ValueError outcome are compared with M4; states = distinct final (buffer, mode) pairs",
         "samples": [{"history": [list(map(_j, o)) for o in h]} for h in ([("mode", 1), ("add_fixed_string", "aÿ", 3, 1)], [("add_three", P4), ("add_char", 252)])],
     }
@@ -292,6 +349,9 @@ def _j(x):
 
 def replay(case):
     loader.install_shims()
+    if case.get("forms"):
+        _, bad = argument_forms_check()
+        return bad[0][1] if bad else None
     if case.get("two"):
         return two_writer_history([(int(w), _fix(op)) for w, op in case["two"]])
     hist = [tuple(o) for o in case["history"]]
